@@ -406,12 +406,23 @@ class ElementList(MutableSequence):
         # the new child to children
         if old_child.traversal_parent == self.element:
             self.remove(old_child)
-            self.append(new_child)
+            try:
+                self.append(new_child)
+            except Exception:
+                # the new child has been refused: keep the old one
+                self.traversal_indexes.setdefault(old_child.name, []).append(old_child)
+                raise
         else:
             list_index = self.list.index(old_child)
             by_name_index = self.indexes[old_child.name].index(old_child)
             self.remove(old_child)
-            self.insert(list_index, new_child, by_name_index)
+            try:
+                self.insert(list_index, new_child, by_name_index)
+            except Exception:
+                # the new child has been refused: put the old one back where it was
+                self.list.insert(list_index, old_child)
+                self.indexes.setdefault(old_child.name, []).insert(by_name_index, old_child)
+                raise
 
     def create_element(self, name, traversal_parent=False, reference=None):
         """
